@@ -53,6 +53,10 @@ def cases(tier, rng):
                     yield {'k': 'sponge', 'b': b, 'r': r, 'L': L, 'mode': mode, 'sur': sur if L else 0, 'dc': dc}
             for j in range(2 if tier == 'quick' else 10):
                 yield {'k': 'duplex', 'b': b, 'r': r, 'ncalls': 1 + (j + r) % 6}
+    for b, r in ((1600, 1088), (200, 40), (25, 7), (400, 9), (1600, 1344)):
+        for nbytes in (1, 2, r // 8 + 1, 2 * (r // 8) + 3):
+            for mode in ('nist', 'native'):
+                yield {'k': 'sponge', 'b': b, 'r': r, 'L': 0, 'mode': mode, 'sur': nbytes, 'dc': 'r', 'explicit0': True}
     # explicit L with L mod 8 in 1..7 and surplus bytes, NIST alignment of the last byte
     for b, r in ((1600, 1088), (1600, 1344), (200, 40), (400, 144), (1600, 1027)):
         for L in (list(range(1, 18)) + [r - 9, r - 3, r - 2, r - 1, r + 1, r + 5, 2 * r - 1, 2 * r + 7]):
@@ -94,13 +98,15 @@ def run(case, ctx, rng):
         b, r, L, mode = case['b'], case['r'], case['L'], case['mode']
         d = dval(case['dc'], r)
         M = rng.randbytes((L + 7) // 8 + case['sur'])
-        ctx.cls((b, r, lclass(L, r), min(L // r, 3), L % 8, case['sur'], case['dc'], mode))
+        ctx.cls((b, r, lclass(L, r), min(L // r, 3), L % 8, case['sur'], case['dc'], mode, case.get('explicit0', False)))
         bits = rk.bytes2bits_nist(M, L) if mode == 'nist' else rk.bytes2bits_lsb(M, L)
         want = rk.bits2bytes(rk.sponge(b, r, bits, d))
         def f():
             h = Keccak(b=b, r=r, len=d)
             h.duplexing = (mode == 'native')
-            return h(M, bitlen=L) if L else h(M)        # L == 0 only with the empty message
+            if case.get('explicit0'):
+                return h(M, bitlen=0)                    # L = 0 on a non-empty buffer: the digest of the empty message
+            return h(M, bitlen=L) if L else h(M)        # otherwise L == 0 only with the empty message
         det = dict(b=b, r=r, L=L, d=d, mode=mode, M=M)
         got = call(f)
         ctx.eq('sponge==reference', got, want, **det)
